@@ -889,8 +889,156 @@ def run_c06(ctx) -> Corr:
 # ---- C07 --------------------------------------------------------------------------------------
 
 
-def sleepy_history(rng, version, length, fault_p=0.0, cancel_p=0.0):
-    """Sends and wake / non-wake messages over 3 nodes x 2 children x 2 types."""
+def held_payload_kinds(thorough=False):
+    """Payloads for commands that are HELD for a sleeping node: (family, label, text).  The property says a held command
+    is written at the wake carrying the value that was sent - the same bytes an immediate write of the same message
+    puts on the wire.  These are the texts an immediate write passes through untouched but that any further treatment
+    of the held copy would change: a decode / encode trip (strip of the line end, split on the delimiter), a strip, a
+    number conversion, a Unicode normalisation or case mapping, a line split, a length limit."""
+    out = []
+    for ws in gen.PY_SPACES:
+        cp = f"U+{ord(ws):04X}"
+        out += [("trailing whitespace", "text + " + cp, "on" + ws), ("leading whitespace", cp + " + text", ws + "on"),
+                ("only whitespace", cp, ws), ("whitespace on both sides", cp, ws + "7" + ws + ws)]
+    out += [
+        ("trailing whitespace", "padded to the width of a 16-column display line", "Hello".ljust(16)),
+        ("trailing whitespace", "padded to 20 columns, non-ASCII", "21.5 \xb0C".ljust(20)),
+        ("trailing whitespace", "a display line of blanks", " " * 16),
+        ("trailing whitespace", "number + space", "5 "), ("trailing whitespace", "text + CR LF", "on\r\n"),
+        ("trailing whitespace", "text + LF", "on\n"), ("trailing whitespace", "text + tab", "a\tb\t"),
+        ("trailing whitespace", "mixed run", "x \t\x0b\x0c\x1c\x1d\x1e\x1f\x85\xa0\u2028\u2029\u3000"),
+        ("trailing whitespace", "delimiter + space", "a; "), ("trailing whitespace", "1000 blanks after text", "x" + " " * 1000),
+        ("leading whitespace", "number after a space", " 5"), ("leading whitespace", "indented text", "    indented"),
+        ("leading whitespace", "1000 blanks before text", " " * 1000 + "x"), ("leading whitespace", "tab first", "\t7"),
+        ("whitespace inside", "line feed inside", "first\nsecond"), ("whitespace inside", "CR LF inside", "a\r\nb"),
+        ("whitespace inside", "two blanks inside", "a  b"), ("whitespace inside", "line separator inside", "a\u2028b"),
+        ("empty", "empty payload", ""),
+        ("delimiter", "one delimiter", ";"), ("delimiter", "values separated by the delimiter", "55.7;13.0;18"),
+        ("delimiter", "ends in the delimiter", "on;"), ("delimiter", "starts with the delimiter", ";on"),
+        ("delimiter", "only delimiters", ";;;;;;;"), ("delimiter", "looks like a whole line", "1;0;1;0;2;5"),
+        ("delimiter", "looks like a line with its end", "1;0;1;0;2;5\n"), ("delimiter", "delimiters and blanks", " ; ; "),
+        ("numeric-looking text", "leading zeros", "007"), ("numeric-looking text", "underscore", "1_0"),
+        ("numeric-looking text", "plus sign", "+5"), ("numeric-looking text", "minus zero", "-0"),
+        ("numeric-looking text", "trailing zeros", "21.50"), ("numeric-looking text", "float of an integer", "1.0"),
+        ("numeric-looking text", "exponent", "1e3"), ("numeric-looking text", "hexadecimal", "0x1F"),
+        ("numeric-looking text", "Arabic-Indic digits", "\u0661\u0662"), ("numeric-looking text", "full-width digits", "\uff11\uff12"),
+        ("numeric-looking text", "leading point", ".5"), ("numeric-looking text", "trailing point", "5."),
+        ("numeric-looking text", "boolean word", "True"), ("numeric-looking text", "nan", "nan"),
+        ("numeric-looking text", "more digits than a float holds", "0.1000000000000000055511151231257827"),
+        ("numeric-looking text", "20 digits", "18446744073709551616"),
+        ("non-ASCII", "accents", "temp\xe9rature \xb0C"), ("non-ASCII", "astral", "\U0001f321 ok"),
+        ("non-ASCII", "combining accent", "Cafe\u0301"), ("non-ASCII", "ohm sign", "4.7 k\u2126"),
+        ("non-ASCII", "compatibility characters", "\ufb01x \u2460 \uff12"), ("non-ASCII", "case mapping", "\u1e9e \u0130 \u0131 STRASSE"),
+        ("non-ASCII", "byte order mark", "\ufeffx"), ("non-ASCII", "zero-width joiner", "a\u200db"),
+        ("non-ASCII", "right-to-left override", "\u202eabc"), ("non-ASCII", "latin-1 only", "\xe9\xff"),
+        ("control characters", "NUL inside", "a\x00b"), ("control characters", "NUL at the end", "a\x00"),
+        ("control characters", "escape sequence", "\x1b[2J"), ("control characters", "bell, backspace, delete", "\x07\x08\x7f"),
+        ("quoting", "quotes and backslash", "\"'\\"), ("quoting", "percent and braces", "%s {0} {payload}"),
+        ("quoting", "MQTT wildcards", "#+/"), ("quoting", "JSON", '{"a": [1, 2]}'), ("quoting", "upper case", "ON"),
+        ("very long", "300 characters", "x" * 300), ("very long", "5000 digits", "9" * 5000),
+        ("very long", "20000 characters", "ab" * 10000), ("very long", "3000 delimiters", ";" * 3000),
+    ]
+    if thorough:
+        out += [("very long", "70000 characters (more than a 64 KiB buffer)", "ab" * 35000),
+                ("very long", "300000 blanks after text", "x" + " " * 300000)]
+    return out
+
+
+def _other_value(p: str) -> str:
+    """Another value for the same key that a treatment of the held copy could confuse with `p`: `p` without its
+    outer whitespace when it has any, else `p` padded with a blank."""
+    return p.strip() if p.strip() != p else p + " "
+
+
+# the ids / value types / ack flags the held-payload histories rotate over: (destination, another sleeping node),
+# (two children), free-text and numeric value types (one outside every SetReq table), both ack flags
+_HELD_NODES = [(1, 2), (7, 100), (254, 1), (100, 254)]
+_HELD_CHILDREN = [(0, 1), (1, 254), (100, 0)]
+_HELD_TYPES = [(47, 2), (24, 0), (48, 47), (2, 49), (32, 300), (0, 48)]
+
+
+def held_payload_histories(ctx, corr: Corr, grid_only=False):
+    """Histories about WHAT a held command carries when it is finally written.  For every payload kind, under every
+    protocol with a wake signal: the command is held for a sleeping node (also for a second sleeping node, also under a
+    second key with a value that differs in its outer whitespace only), the same message is sent unbuffered (an
+    immediate write to compare with), the node wakes (and wakes again: nothing left), the key is overwritten in both
+    orders by values differing in outer whitespace only, each followed by a wake; the other node wakes last.  Under
+    1.x (flag restored from persistence) the commands are held and no message releases them.  Then random sleepy
+    histories drawing their values from the same pool.  Only recv / send operations: every history also runs through
+    the Lean model.  `grid_only` (C12's use): one version per kind in rotation, no unbuffered send of the held message
+    itself, no random histories."""
+    kinds = held_payload_kinds(ctx.tier == "thorough")
+    t0 = gw.DEFAULT_TIME
+    hists = []
+    for i, (family, _label, p) in enumerate(kinds):
+        q = _other_value(p)
+        n, m = _HELD_NODES[i % len(_HELD_NODES)]
+        c0, c1 = _HELD_CHILDREN[i % len(_HELD_CHILDREN)]
+        ta, tb = _HELD_TYPES[i % len(_HELD_TYPES)]
+        ack = i % 2
+        pre = []
+        for node in (n, m):
+            pre.append(("node", node, 17, "2.0", "", "", 0, 0, False, True))
+            for c in (c0, c1):
+                pre.append(("child", node, c, c, 36, ""))
+        # very long values: one version each and a shorter history (over 1000 characters in the quick tier, over 25000 always)
+        long = len(p) > (1000 if ctx.tier == "quick" else 25000)
+        versions = [V20[i % 3]] if long else [lib.VERSIONS[1 + i % 4]] if grid_only else lib.VERSIONS[1:]
+        for v in versions:
+            wake_t = 32 if v == "2.2" else 22
+
+            def wake(node, wake_t=wake_t):
+                return ("recv", f"{node};255;3;0;{wake_t};500", (), t0)
+            h = Hist(v, True, list(pre))
+            main = (n, c0, 1, ack, ta)
+            h.ops = [("send", main + (p,), True, ()), ("send", (m, c0, 1, ack, ta, p), True, ()),
+                     ("send", (n, c1, 1, 1 - ack, tb, q), True, ()), ("send", main + (p,), False, ())]
+            if v in V20 and long:
+                h.ops = [h.ops[0], h.ops[3], wake(n), ("send", main + (q,), True, ()), ("send", main + (p,), True, ()), wake(n)]
+            elif v in V20:
+                h.ops += [wake(n), wake(n),
+                          ("send", main + (q,), True, ()), ("send", main + (p,), True, ()), wake(n),
+                          ("send", main + (p,), True, ()), ("send", main + (q,), True, ()), wake(n), wake(m)]
+            else:
+                h.ops += [("recv", f"{n};255;3;0;22;500", (), t0), ("recv", f"{n};255;3;0;0;57", (), t0)]
+            if grid_only:
+                h.ops = [op for op in h.ops if op[0] != "send" or op[2]]
+            hists.append(h)
+            corr.count("held payload kind: " + family)
+    if grid_only:
+        return hists
+    rng = lib.rng_for(ctx.seed, "c07held")
+    pool = [p for _, _, p in kinds if len(p) <= 1000]
+    pool += [_other_value(p) for p in pool]
+    for i in range(120 if ctx.tier == "quick" else 3000):
+        hists.append(sleepy_history(rng, lib.VERSIONS[i % 5], rng.randint(5, 30 if ctx.tier == "quick" else 100), payloads=pool))
+    corr.count("histories: held payload kinds (grid)", len(hists) - (120 if ctx.tier == "quick" else 3000))
+    corr.count("histories: random sleepy histories over the held-payload pool", 120 if ctx.tier == "quick" else 3000)
+    return hists
+
+
+def awake_twins(hists, per_history=25):
+    """For every set command sent in `hists`: the SAME message sent to the same node registered and awake, under the
+    same version - what an immediate write of that message puts on the wire.  A twin history holds that one node,
+    awake, and up to `per_history` such sends, nothing else (no send to an awake node depends on an earlier one).
+    Returns ({(version, fields): (index into the list, step)}, [histories])."""
+    index, twins, open_ = {}, [], {}
+    for h in hists:
+        for op in h.ops:
+            if op[0] == "send" and op[1] is not None and op[1][2] == 1 and (h.version, op[1]) not in index:
+                slot = (h.version, op[1][0])
+                if slot not in open_ or len(twins[open_[slot]].ops) >= per_history:
+                    open_[slot] = len(twins)
+                    twins.append(Hist(h.version, True, [("node", op[1][0], 17, "2.0", "", "", 0, 0, False, False)], []))
+                t = twins[open_[slot]]
+                t.ops.append(("send", op[1], True, ()))
+                index[(h.version, op[1])] = (open_[slot], len(t.ops))
+    return index, twins
+
+
+def sleepy_history(rng, version, length, fault_p=0.0, cancel_p=0.0, payloads=None):
+    """Sends and wake / non-wake messages over 3 nodes x 2 children x 2 types.  `payloads`: the values of the set
+    commands are drawn from this pool instead of being small numbers."""
     h = Hist(version, True)
     for n in (1, 2, 3):
         h.preload.append(("node", n, 17, "2.0", "", "", 0, 0, False, rng.random() < 0.6))
@@ -901,7 +1049,8 @@ def sleepy_history(rng, version, length, fault_p=0.0, cancel_p=0.0):
         r = rng.random()
         n = rng.choice((1, 2, 3))
         if r < 0.55:
-            op = ("send", (n, rng.choice((0, 1)), 1, rng.choice((0, 1)), rng.choice((0, 2)), str(rng.randint(0, 99))), rng.random() < 0.85, ())
+            op = ("send", (n, rng.choice((0, 1)), 1, rng.choice((0, 1)), rng.choice((0, 2)),
+                          str(rng.randint(0, 99)) if payloads is None else rng.choice(payloads)), rng.random() < 0.85, ())
         elif r < 0.8:
             op = ("recv", f"{n};255;3;0;{wake_t};7", (), gw.DEFAULT_TIME)
         elif r < 0.88:
@@ -931,14 +1080,41 @@ def run_c07(ctx) -> Corr:
     corr = Corr("C07", "sequential interleavings of send calls and received wake / non-wake messages over 3 nodes x 2 children "
                 "x 2 value types (overwrites before a wake, sends between wakes, re-parking after a flush, re-presentations), "
                 "5 versions incl. 1.x with sleeping flags restored from persistence; compared on the writes view with the Lean "
-                "model; oracle = bookkeeping of the latest parked value per key from the trace. non-trivial = distinct "
-                "(state, op) that parks a command or releases at least one")
+                "model; oracle = bookkeeping of the latest parked value per key from the trace. In addition WHAT a held command "
+                "carries: every payload kind of held_payload_kinds (outer whitespace of each of Python's 29 whitespace code "
+                "points, delimiters, empty, numeric-looking text, non-ASCII, control characters, very long) x 4 versions with "
+                "hold / second node / second key / unbuffered send / wake / overwrite in both orders by a value differing in "
+                "outer whitespace only / re-parking, and random sleepy histories over that pool; oracle there = the line "
+                "written at the wake is byte for byte encode(message sent) AND what the same send writes for the same node "
+                "awake (a twin history). non-trivial = distinct (state, op) that parks a command or releases at least one")
     rng = lib.rng_for(ctx.seed, "c07")
     hists = [h for _, h in corpus_histories("C07")]
     n = 250 if ctx.tier == "quick" else 4000
     for i in range(n):
         hists.append(sleepy_history(rng, lib.VERSIONS[i % 5], rng.randint(5, 40 if ctx.tier == "quick" else 120)))
+    # what a held command carries when it is written at the wake (value kinds that an immediate write leaves alone)
+    held = held_payload_histories(ctx, corr)
+    twin_index, twins = awake_twins(held)
+    twin_base = len(hists) + len(held)
+    hists += held + twins
+    corr.count("histories: awake twins (the same send to the same node, awake)", len(twins))
+    corr.notes.append("the held-payload histories (held_payload_histories) and their awake twins (awake_twins) consist of recv / "
+                      "send operations only, all of which the gateway model's driver has: each is compared with the Lean model "
+                      "on the writes view AND judged by the oracle; the comparison of a line written at a wake with the write "
+                      "of its awake twin spans two histories and is made by the oracle alone")
     impl = run_both(hists, corr, ctx, "writes", "writes view")
+
+    def twin_writes(version, f):
+        j = twin_index.get((version, f))
+        return None if j is None else [w[0] for w in impl[twin_base + j[0]][j[1]]["writes"]]
+
+    def key_of_line(line):
+        part = line.split(";", 5)
+        try:
+            return (int(part[0]), int(part[1]), int(part[4]))
+        except (ValueError, IndexError):
+            return None
+
     for h, io in zip(hists, impl):
         parked: dict = {}
         for i, op in enumerate(h.ops):
@@ -953,6 +1129,8 @@ def run_c07(ctx) -> Corr:
                 continue
             if op[0] == "send":
                 f = op[1]
+                if f is None:
+                    continue
                 node = before["nodes"].get(f[0])
                 if f[2] == 1 and op[2] and node is not None and node["sleeping"]:
                     if got or o["out"] != "ok":
@@ -969,7 +1147,25 @@ def run_c07(ctx) -> Corr:
                     mine = [k for k in parked if k[0] == f[0]]
                     want = [line_of(parked[k]) for k in mine]
                     if sorted(got) != sorted(want) or len(set(got)) != len(got):
-                        corr.violate("a wake did not release exactly the latest parked value of each of that node's keys, once", {**case, "want": want})
+                        corr.violate("a wake did not release exactly the latest parked value of each of that node's keys, once",
+                                     {**case, "want": want,
+                                      "held": [{"message_sent": list(parked[k]), "written_at_the_wake": [g for g in got if key_of_line(g) == k],
+                                                "the_same_send_to_the_node_awake_writes": twin_writes(h.version, parked[k])} for k in mine]})
+                        break
+                    # byte for byte what the same send writes when the node is awake (the twin history)
+                    bad = None
+                    for k in mine:
+                        tw = twin_writes(h.version, parked[k])
+                        if tw is None:
+                            continue
+                        corr.count("oracle: line written at the wake compared with the awake twin's immediate write")
+                        at_wake = [g for g in got if key_of_line(g) == k]
+                        if at_wake != tw:
+                            bad = {"message_sent": list(parked[k]), "written_at_the_wake": at_wake,
+                                   "the_same_send_to_the_node_awake_writes": tw}
+                            break
+                    if bad is not None:
+                        corr.violate("the line written at the wake is not the line the same send writes for the node awake", {**case, **bad})
                         break
                     for k in mine:
                         del parked[k]
@@ -1969,6 +2165,14 @@ def run_c12(ctx) -> Corr:
     hists += _c12_between_histories(ctx, corr)
     corr.count("histories: one send per destination state, then a wake of every node", n_base)
     corr.count("histories: traffic between hold and wake", len(hists) - n_base)
+    # what is held is the message that was sent: value kinds an immediate write leaves alone (shared with C07)
+    n_base = len(hists)
+    hists += held_payload_histories(ctx, corr, grid_only=True)
+    corr.count("histories: held payload kinds", len(hists) - n_base)
+    corr.notes.append("the held-payload histories (held_payload_histories, shared with C07: a held value with outer whitespace of "
+                      "every Python whitespace kind, delimiters, empty, numeric-looking, non-ASCII, control characters, very long; "
+                      "second node, second key, overwrite in both orders) are recv / send operations only: compared with the "
+                      "Lean model on the writes view and judged by _c12_oracle")
     impl = run_both(hists, corr, ctx, "writes", "writes view")
     for h, io in zip(hists, impl):
         _c12_oracle(corr, h, io)
